@@ -30,6 +30,13 @@ def fstring_fields(e):
     return out
 
 
+def _ancs(n):
+    x = parent(n)
+    while x is not None and not isinstance(x, (ast.FunctionDef, ast.AsyncFunctionDef)):
+        yield x
+        x = parent(x)
+
+
 def run(report, p):
     pr = prov(p)
     cmds = commands(p)
@@ -248,6 +255,20 @@ def _rest(report, p, pr, info, reach, loader, c30, listers):
     r3.instance(F, o, f"for {norm(o.target)} in {norm(o.iter)}")
     r3.instance(F, i, f"for {norm(i.target)} in {norm(i.iter)}")
     r3.check(is_plain_iter(p, o.iter) and is_plain_iter(p, i.iter), F, o.iter, "the per-file listing iterates a slice / filtered view of generations or entries")
+    # every named file is listed: the generation loop sits inside a loop over the bare -sf parameter
+    file_loops = [a for a in _ancs(o) if isinstance(a, ast.For)]
+    sf_param = next((pn for pn in F.params if "single" in pn or "file" in pn), None)
+    fit = file_loops[0].iter if file_loops else None
+    while fit is not None:  # the order in which the named files are listed is not part of the property
+        if isinstance(fit, ast.Call) and norm(fit.func) in ("reversed", "sorted", "list", "tuple") and len(fit.args) == 1 and not fit.keywords:
+            fit = fit.args[0]
+        elif isinstance(fit, ast.Subscript) and isinstance(fit.slice, ast.Slice) and fit.slice.lower is None and fit.slice.upper is None:
+            fit = fit.value
+        else:
+            break
+    okf_ = len(file_loops) == 1 and sf_param is not None and norm(fit) == sf_param and is_plain_iter(p, fit)
+    r3.instance(F, file_loops[0] if file_loops else o, f"file loop: {norm(file_loops[0].iter) if file_loops else '-'}")
+    r3.check(okf_, F, file_loops[0].iter if file_loops else o, f"the per-file listing does not go through every file named with -sf (`for … in {norm(file_loops[0].iter)[:40] if file_loops else '?'}`): files that are passed over are silently not listed", construct="file loop of the per-file listing")
     rec = [n for n in ast.walk(o) if isinstance(n, ast.Assign) and isinstance(n.value, ast.Call) and norm(n.value.func) == f"{norm(o.target)}.find_media_hash_for_path"]
     okr = len(rec) == 1 and norm(i.iter) == f"{norm(rec[0].targets[0])}.hash_entries"
     r3.check(okr, F, rec[0] if rec else o, "the entries listed are not those of the record found in the generation being listed", construct="record lookup")
